@@ -174,7 +174,10 @@ def classify(diags: List[dict], lines_meta: list, build_name: str):
         if not any(v in msg for v in VERIF_MSGS):
             hard.append(d.get("rendered") or msg); continue
         fid = None; label = None; line = None
+        # the call site (primary span) decides which function failed; a callee's `requires` line is only the reason
+        spans = sorted(spans, key=lambda x: (not x.get("is_primary", False), (x.get("label") or "") == "failed precondition"))
         for sp in spans:
+            if (sp.get("label") or "") == "failed precondition": continue
             if not sp.get("file_name", "").endswith(build_name): continue
             ln = sp.get("line_start", 0)
             if 1 <= ln <= len(lines_meta):
@@ -414,7 +417,10 @@ def check_property(prop: str, tier: str, seed: int, quiet: bool = False) -> int:
                 failed.append((r, f))
     violations = []
     notbase = []
+    seen_oid = set()
     for r, f in failed:
+        if f["oid"] in seen_oid: continue
+        seen_oid.add(f["oid"])
         if baseline and f["oid"] not in baseline:
             notbase.append(f["oid"]); continue
         violations.append((r, f))
